@@ -95,6 +95,7 @@ class Target:
         self.fault_prior_at = None
         self.fault_exc = Fault
         self.memo = None      # dict: the likelihood memoises (returns the very array it returned before for the same points)
+        self.pole = None      # a point at which the likelihood has an integrable singularity: log L = +inf exactly there
 
     def _np(self, x):
         x = ns.to_np(x)
@@ -112,6 +113,8 @@ class Target:
             v = np.where(np.all(np.abs(x) <= self.half, axis=-1), v, np.nan)
         if self.like_cut is not None:
             v = np.where(x[:, 0] < self.like_cut, -np.inf, v)
+        if self.pole is not None:
+            v = np.where(np.all(x == np.asarray(self.pole).reshape(1, -1), axis=-1), np.inf, v)
         return v
 
     def log_prior(self, s):
